@@ -14,7 +14,10 @@ RULE = (
     "directly and through validate_ast(validators=[...]); the verdict per operation is compared with "
     "the reference depth of the IR (refdepth); metamorphic copies wrap random sub-selections (incl. "
     "the whole top level) in inline fragments, named fragments and same-key field splits and must "
-    "not measure shallower. Non-trivial = distinct (document, limit) whose document uses a "
+    "not measure shallower. "
+    "One rule instance also serves several requests whose boolean variables change the depth; "
+    "operations of multi-operation documents are named Q, QQ, QQQ half of the time.  "
+    "Non-trivial = distinct (document, limit) whose document uses a "
     "fragment, directive or >= 2 operations."
 )
 ASSUMPTIONS = ["depth convention of the rule's docstring: leaf-only selection = 0, each nesting level below adds 1"]
